@@ -50,6 +50,12 @@ def cases(tier, seed):
                 # first back-off (0.5 s) of a submission failing meanwhile
                 out.append({"name": "retry.sweep-deep/%s/%s|%s" % (victim, trig, second), "kind": "sweep", "victim": victim,
                             "trigger": trig, "second": second, "cap": cap, "deep": True})
+    # the worker scans its job list (woken by the back-off timer of a later entry) while an earlier entry ends for good
+    # on a delegate thread and is removed from the list
+    for second in ("complete0", "fail1", "submit"):
+        for gran in (None, "instr"):
+            out.append({"name": "retry.sweep-scan%s/worker/timer|%s" % ("-instr" if gran else "", second), "kind": "sweep", "victim": "worker",
+                        "trigger": "timer", "second": second, "cap": cap, "popscan": True, "gran": gran})
     return out
 
 
@@ -425,12 +431,23 @@ class RScenario(object):
     def setup(self):
         ctx = Ctx()
         scripts = [[("raise", "A"), ("raise", "B"), ("ret",)], [("raise", "A"), ("ret",)], [("ret",)], [("ret",)]]
+        if self.case.get("popscan"):
+            scripts[0] = [("ret",)]
         w = RW(ctx, dict(self.POLICY), scripts, [0, 0, 0, 0])
         ctx.w = w
         w.submit()
         w.submit()
         instr.advance(0.01)
         w.scan()
+        if self.case.get("popscan"):
+            # submission 1 fails its first attempt and waits for its back-off; submission 0 (in front of it in the
+            # executor's list) is still with the delegate
+            for due, rec, a in w.open_attempts():
+                if rec["sid"] == 1:
+                    w.finish_attempt(rec, a)
+                    break
+            instr.settle()
+            w.scan()
         if self.case.get("deep"):
             for due, rec, a in w.open_attempts():
                 if rec["sid"] == 0:
@@ -447,7 +464,7 @@ class RScenario(object):
 
     def produce(self, ctx, what):
         w = ctx.w
-        if what in ("fail0", "fail1", "complete1"):
+        if what in ("fail0", "fail1", "complete1", "complete0"):
             sid = int(what[-1])
             for due, rec, a in w.open_attempts():
                 if rec["sid"] == sid:
@@ -487,4 +504,4 @@ def run_case(case, res):
         run_gen(case, res)
     else:
         rng = random.Random("c05/%s/%s" % (case["seed"], case["name"]))
-        Sweep(RScenario(case), res, "vt", case["name"]).run(case["cap"], rng, per_site=2)
+        Sweep(RScenario(case), res, "vt", case["name"], gran=case.get("gran")).run(case["cap"], rng, per_site=2)
